@@ -155,7 +155,13 @@ def run(ctx) -> None:
     bind = g.methods["bind"]
     stores = [n for n in walk_local(bind.node) if isinstance(n, ast.Assign) and any(isinstance(t, ast.Attribute) and t.attr == "_bound" for t in n.targets)]
     ok = len(stores) == 1 and isinstance(stores[0].value, ast.Dict) and any(k is None and src(v) == "values" for k, v in zip(stores[0].value.keys, stores[0].value.values)) and not any(isinstance(x, ast.Call) for x in ast.walk(stores[0].value))
-    rep.add("C18.R5", f"{bind.qname}:stores-the-object", ok, bind.loc(), "bind() stores the caller's objects themselves ({**old, **values})" if ok else "bind() transforms or copies the bound values")
+    # ... on top of the graph's *own* bindings only: the merged view (inputs.bound) also holds what nested graphs bound —
+    # adopting it makes a sibling's object this graph's own binding, which then overrides the other sibling's
+    if ok:
+        others = [src(v) for k, v in zip(stores[0].value.keys, stores[0].value.values) if k is None and src(v) != "values"]
+        if others != ["self._bound"]:
+            ok = False
+    rep.add("C18.R5", f"{bind.qname}:stores-the-object", ok, bind.loc(), "bind() stores the caller's objects themselves on top of the graph's own bindings ({**self._bound, **values})" if ok else "bind() transforms or copies the bound values, or starts from something other than the graph's own bindings (e.g. the merged inputs.bound, which also holds what nested graphs bound: a sibling's object becomes this graph's own binding and is handed to the other nested graph)")
 
     # ---- R6 ---------------------------------------------------------------------
     check_nested_map_inputs(ctx, "C18.R6")
